@@ -38,6 +38,23 @@ JUSTIFIED = {
 }
 TAINTED_SEQ = ["recursive_field_types", "ref_types"]   # set-ordered sequences (see JUSTIFIED)
 
+# reviewed ambient-input sites: (file, function, prefix of what) -> (justification, side-condition name or None)
+AMBIENT_OK = {
+    ("gapic/cli/generate.py", "generate", "sys.stdin"): ("reads the CodeGeneratorRequest itself", None),
+    ("gapic/cli/dump.py", "dump", "sys.stdin"): ("debug entry point that dumps the request; produces no response", None),
+    ("gapic/cli/generate_with_pandoc.py", "<module>", "os."): ("wrapper script: sets the child's environment and re-executes "
+                                                               "the plugin; paths are relative to the script file", None),
+    ("gapic/cli/generate_with_pandoc.py", "<module>", "sys."): ("wrapper script: forwards its own argv to the child", None),
+    ("gapic/samplegen/manifest.py", "generate", "time.gmtime"): ("legacy sample manifest: not called from anywhere in gapic/", "manifest_unused"),
+    ("gapic/samplegen_utils/utils.py", "generate_all_sample_fpaths", "os.path.isfile"): ("probes the sample-config paths named by "
+                                                                                         "the request's options (referenced option files)", None),
+    ("gapic/utils/options.py", "build", "os.path.realpath"): ("of a path built from the package's own __file__: independent of cwd", None),
+    ("gapic/utils/options.py", "build", "os.path.expanduser"): ("applied to the template directories named by the request's options", None),
+    ("gapic/schema/metadata.py", "__hash__", "hash()"): ("hash of str-valued fields: influences set order only (set-iteration inventory)", None),
+    ("gapic/schema/wrappers.py", "__hash__", "hash()"): ("hash of str-valued fields: influences set order only (set-iteration inventory)", None),
+    ("gapic/schema/wrappers.py", "__hash__", "id()"): ("Field hashes by identity: influences set order only (set-iteration inventory)", None),
+}
+
 
 def side_condition(name, repo):
     w = open(os.path.join(repo, "gapic/schema/wrappers.py")).read()
@@ -45,6 +62,13 @@ def side_condition(name, repo):
         i = w.index("def resource_messages(self)")
         body = w[i:w.index("\n    @", i + 10)]
         return "return frozenset(" in body and "gen_resources(" in body and "gen_indirect_resources_used(" in body
+    if name == "manifest_unused":
+        for d, _dirs, files in os.walk(os.path.join(repo, "gapic")):
+            for f in files:
+                if f.endswith((".py", ".j2")) and not (d.endswith("samplegen") and f == "manifest.py"):
+                    if "manifest.generate" in open(os.path.join(d, f)).read():
+                        return False
+        return True
     if name == "dict_lookup_only":
         hits = []
         for d, _dirs, files in os.walk(os.path.join(repo, "gapic")):
@@ -107,9 +131,31 @@ def tainted_consumers(repo):
 
 
 # ---------------------------------------------------------------------------- replay machinery
-def run_generator(req_bytes, seed, cwd):
-    env = dict(os.environ, PYTHONHASHSEED=str(seed), PYTHONPATH=core.REPO)
-    p = subprocess.run([sys.executable, "-W", "ignore", "-c",
+FAKE_CLOCK = r"""
+import os, datetime as _dt, time as _t
+_e = float(os.environ["VERIF_FAKE_EPOCH"])
+class _D(_dt.date):
+    @classmethod
+    def today(cls): return cls.fromtimestamp(_e)
+class _DT(_dt.datetime):
+    @classmethod
+    def now(cls, tz=None): return cls.fromtimestamp(_e, tz)
+    @classmethod
+    def utcnow(cls): return cls.fromtimestamp(_e, _dt.timezone.utc).replace(tzinfo=None)
+    @classmethod
+    def today(cls): return cls.fromtimestamp(_e)
+_dt.date, _dt.datetime = _D, _DT
+_gm, _lt = _t.gmtime, _t.localtime
+_t.time = lambda: _e
+_t.gmtime = lambda s=None: _gm(_e if s is None else s)
+_t.localtime = lambda s=None: _lt(_e if s is None else s)
+"""
+EPOCHS = [1781524800.0, 1927800000.0]      # 2026-06-15 and 2031-02-03: the replay runs under two different wall clocks
+
+
+def run_generator(req_bytes, seed, cwd, epoch=EPOCHS[0]):
+    env = dict(os.environ, PYTHONHASHSEED=str(seed), PYTHONPATH=core.REPO, VERIF_FAKE_EPOCH=str(epoch))
+    p = subprocess.run([sys.executable, "-W", "ignore", "-c", FAKE_CLOCK +
                         "import sys, pypandoc; pypandoc.convert_text = lambda text, *a, **k: text\n"
                         "from gapic.cli import generate; generate.generate()"],
                        input=req_bytes, capture_output=True, env=env, cwd=cwd, timeout=300)
@@ -175,7 +221,7 @@ def replay_request(label, seeds):
         outs = {}
         for k, seed in enumerate(seeds):
             cwd = d if k % 2 == 0 else os.path.dirname(gen.__file__)
-            out = run_generator(req, seed, cwd)
+            out = run_generator(req, seed, cwd, EPOCHS[(k // 2) % 2] if len(seeds) > 2 else EPOCHS[k % 2])
             digests[seed] = hashlib.sha256(out).hexdigest()[:16]
             outs[seed] = out
         return digests, outs
@@ -247,6 +293,17 @@ def body(chk: core.Check):
                 chk.sample({"raw_site": f"{s['file']}:{s['line']} {s['code'][:70]}", "justification": j[0][0]}, limit=30)
             else:
                 unknown_raw.append(f"{s['file']}:{s['line']} in {s['function']}: {s['code'][:90]} [{s['detail']}]")
+    # ---- ambient inputs (clock, randomness, environment, working directory, file-system probes, object identity)
+    amb = setorder.ambient_sites(repo)
+    chk.encoded("inventory of ambient-input uses in gapic/**/*.py", "\n".join(f"{a['file']}:{a['function']}:{a['what']}" for a in amb))
+    for a in amb:
+        key = f"{a['file']}:{a['function']}:{a['what']}"
+        just = [v for (f_, fn_, w_), v in AMBIENT_OK.items() if a["file"] == f_ and a["function"] == fn_ and a["what"].startswith(w_)]
+        if just and (just[0][1] is None or side_condition(just[0][1], repo)):
+            chk.ok("site:ambient-justified", key)
+            chk.sample({"ambient_site": f"{a['file']}:{a['line']} {a['what']}", "justification": just[0][0]}, limit=40)
+        else:
+            unknown_raw.append(f"ambient input {a['what']} at {a['file']}:{a['line']} in {a['function']}: {a['code']}")
     bad_taint = tainted_consumers(repo)
     if bad_taint:
         unknown_raw += ["set-ordered sequence consumed in order: " + b for b in bad_taint]
